@@ -16,7 +16,7 @@ Local Open Scope string_scope.
 
 Definition entry_name : string := "func.internal/queryparser.ParseQuery".
 Definition policy_C09 : policy :=
-  Eval vm_compute in mk_policy_inferred [] [] gen_mutexes gen_methods gen_external gen_funs [entry_name].
+  Eval vm_compute in mk_policy_inferred [] [] gen_mutexes gen_methods gen_external gen_selfsync gen_funs [entry_name].
 Definition funs := reachable_funs policy_C09 gen_funs [entry_name].
 Definition parse_query : stmt := gen_entry entry_name.
 
